@@ -12,8 +12,9 @@ Higham (Accuracy and Stability of Numerical Algorithms, Lemma 8.4, Thm 9.3, Thm 
 below prove them, over any linearly ordered field, for the standard model of rounded arithmetic
   `fl(x op y) = (x op y)(1 + d)`, `|d| ≤ u`, op ∈ {+, -, *, /}, optionally `fl(x*y + z)` (FMA),
 and for EVERY evaluation order: each computed entry is only assumed to be the value of SOME
-evaluation tree (`Dot`: any association and order of the products and subtractions, separately
-accumulated partial sums as in panel / supernode / BLAS kernels, with or without FMA) of its
+evaluation tree (`Dot`: any association and order of the products, additions and subtractions, any
+signs, separately accumulated partial sums as in panel / supernode / BLAS kernels, with or without
+FMA, structural zeros skipped or not) of its
 Doolittle / substitution formula; the final scaling may be a rounded division (cost 1) or SuperLU's
 `temp = 1.0/pivot; l *= temp` (cost 2).
 
@@ -37,9 +38,16 @@ Also: sparse kernels that skip structural zeros are covered (`Dot.of_filter`); o
 more accurately than `u` are covered (`Dot.mono`, `LUComputed.mono`); with `u = 0` the bounds
 collapse to the exact identities of C01 / C02 (`LUComputed.exact_identity`, `lu_solve_exact`).
 
-NOT covered (remain cited / outside the model): complex arithmetic (the "x4" of DESIGN.md 3.4),
-overflow / underflow (the standard model has no absolute error term; the checks add `tiny`),
-iterative refinement of the expert driver (the `berr` alternative of the C05 check).
+Scope: REAL arithmetic (types s, d).  NOT covered (remain cited / outside the model):
+* complex arithmetic (the "x4" of DESIGN.md 3.4).  Remark, not formalized: the real and imaginary
+  parts of a complex inner product without division are real `Dot`s with `2k` signed products, so the
+  rows of Û and the unit-lower forward substitution obey the bounds above with `γ_{2k}` in the
+  `|re|+|im|` magnitude the checks use; the scaling of the L entries by a complex reciprocal
+  (`z_div` then `zz_mult`) and complex divisions inside BLAS `trsv` need an analysis of their own,
+  and a componentwise count gives a constant of the form `γ_{2k} + c u` with `c ≈ 26`, which is
+  above `4 g(n+2)` for `n < 9`: the complex constant cannot be obtained from this model by counting;
+* overflow / underflow (the standard model has no absolute error term; the checks add `tiny`);
+* iterative refinement of the expert driver (the `berr` alternative of the C05 check).
 -/
 namespace Slu.Rounding
 open Finset
